@@ -99,6 +99,9 @@ def run_studio(ctx, seed):
         tok_of = {rid: tok for c in cats for rid, tok in saved[c] + incomplete[c]}
 
         state = {'journal': [], 'failing': set(failing)}
+        if seed % 4 == 1:
+            state['raising'] = dict((rid, rng.choice([FileNotFoundError, ConnectionError, TimeoutError, OSError])) for c in cats for rid, _ in saved[c] if rng.random() < 0.2)
+            ctx.count('recordings_whose_playback_function_fails_with_an_os_error', len(state['raising']))
 
         class Tuner(EqualizerTuner):
             def create_category_tuning(self, category):
@@ -110,7 +113,11 @@ def run_studio(ctx, seed):
                 def playback_function(recording):
                     state['journal'].append(('play', category, tok_of.get(recording.id), recording.id))
                     cls = recording.get_metadata()[TapeRecorder.OPERATION_CLASS]
-                    return cls().execute()
+                    result = cls().execute()
+                    if recording.id in state.get('raising', ()):
+                        # the playback function's own clean-up fails with an OS-level error after the operation was replayed
+                        raise state['raising'][recording.id]('clean-up after the replay failed')
+                    return result
 
                 def extractor(outputs):
                     tok = next(o.value['args'][0] for o in outputs if 'st.write' in o.key)
@@ -141,7 +148,12 @@ def run_studio(ctx, seed):
                     given.insert(rng.randrange(len(given) + 1), rng.choice(cats))
                 ctx.count('lookup_studios_with_a_repeated_category')
             w['given_categories'] = given
-            studio = PlaybackStudio(given, Tuner(), rec, lookup_properties=RecordingLookupProperties(start_date=now - datetime.timedelta(days=1), limit=20),
+            random_limit = rng.choice([1, 2, 3]) if rng.random() < 0.3 else None       # a random sample of at most that many per category
+            w['random_limit'] = random_limit
+            if random_limit:
+                ctx.count('lookup_studios_with_a_random_sample')
+            studio = PlaybackStudio(given, Tuner(), rec, lookup_properties=RecordingLookupProperties(
+                start_date=now - datetime.timedelta(days=1), limit=random_limit or 20, random_sample=bool(random_limit)),
                                     compare_execution_config=cfg)
 
         def play_once(failing_now):
@@ -200,6 +212,10 @@ def run_studio(ctx, seed):
                     want_order = [rid for rid in ids if rid in set(want)]
                     if got_ids != want_order:
                         ctx.violation('explicit ids of a category are not each played exactly once in the given order', dict(ww, category=c, got=got_ids, want=want_order))
+                elif w.get('random_limit'):
+                    if len(set(got_ids)) != len(got_ids) or not set(got_ids) <= set(want) or len(got_ids) != min(w['random_limit'], len(want)):
+                        ctx.violation('random sample of a category (limit %d): %d recordings played, %d distinct, %d exist' % (
+                            w['random_limit'], len(got_ids), len(set(got_ids)), len(want)), dict(ww, category=c))
                 else:
                     if sorted(got_ids) != sorted(want):
                         foreign = [tok_of.get(r) for r in got_ids if r not in set(want)]
@@ -208,6 +224,10 @@ def run_studio(ctx, seed):
                 for rid, status, msg in out[c]:
                     ctx.count('comparisons_checked')
                     tok = tok_of.get(rid)
+                    if rid in state.get('raising', ()):
+                        if status != 'EqualizerFailure':
+                            ctx.violation('a recording whose playback function failed was reported as %s' % status, dict(ww, category=c, token=tok))
+                        continue
                     if status != 'Equal' or msg != 'cat=%s tok=%s' % (c, tok):
                         ctx.violation('comparison of a recording was not produced by its own category\'s tuning (%s / %s)' % (status, (msg or '')[:80]), dict(ww, category=c, token=tok))
             ntun = [cat for k, cat, _, _ in journal if k == 'tuning']
@@ -228,6 +248,8 @@ def run_studio(ctx, seed):
                 if n != 1:
                     ctx.violation('a recording was replayed %d times in one studio run' % n, dict(ww, token=tok_of.get(rid)))
             should = set(rid for c in cats if c not in failing_now for rid, _ in saved[c])
+            if w.get('random_limit'):
+                should = set(r[0] for c in out if not isinstance(out[c], Exception) for r in out[c])
             if set(plays) != should:
                 ctx.violation('replayed set differs from the selected set (%d vs %d)' % (len(plays), len(should)), ww)
 
@@ -256,7 +278,7 @@ def run_studio(ctx, seed):
         judge(out1, j1, failing, 'first')
         out2, j2 = play_once(failing)
         same = set(out1) == set(out2) and all((isinstance(out1[c], Exception) and isinstance(out2.get(c), Exception)) or out1[c] == out2.get(c) for c in out1)
-        if not same:
+        if not same and not w.get('random_limit'):
             ctx.violation('two runs of the same studio input report results in a different order / content', w)
         # the tuner's situation changes between two plays of the same studio (a fixed tuner, a new failure)
         failing3 = set(c for c in cats if (c in failing) != (rng.random() < 0.5))
